@@ -38,6 +38,23 @@ Definition run_iter (args : list Z) : list Z :=
   | _ => bad_case
   end.
 
+(* matcher with a \G origin: the table is keyed by textstart * (len+1) + pos *)
+Definition tbl_attempt2 (len : Z) (tbl : list (Z * option mt)) (ts p : Z) : option mt :=
+  lookup_attempt tbl (ts * (len + 1) + p).
+
+(* 0702: as 0701, for patterns that test \G *)
+Definition run_iter_g (args : list Z) : list Z :=
+  match (dlet rtl <- d_bool ; dlet len <- d_z ; dlet start <- d_z ; dlet n <- d_z ; dlet t <- d_attempts ;
+         d_ret (rtl, len, start, n, t)) args with
+  | Some ((rtl, len, start, n, t), []) =>
+      let a := tbl_attempt2 len t in
+      let f := dflt_fuel len in
+      e_res (e_list e_mt) (iteration rtl len a f f start)
+      ++ e_res (e_slice e_pair) (find_all_runes_index rtl len a f f n)
+  | _ => bad_case
+  end.
+
 Definition run07 (leg : Z) (args : list Z) : list Z :=
   if leg =? 701 then run_iter args
+  else if leg =? 702 then run_iter_g args
   else bad_case.
